@@ -4,6 +4,7 @@ from analysis import flow, ordering as od
 from analysis.mir import Body, callee_name, callee_id, op_const, op_place
 from analysis.walk import Walker, field_chain, strip_calls
 from analysis import gdscodec as gc
+from analysis.inline import inlined
 from rules.flowrules import select, check_flows
 from rules.gdsrules import get_flow
 
@@ -246,7 +247,8 @@ def rule_closure(ctx, rid):
     if len(ex) != 1:
         ctx.error(rid, "export_shape not found")
         return
-    f = ex[0]
+    # helpers of the exporter (export_boundary / export_points ..) are read as part of export_shape
+    f = inlined(F, ex[0], depth=3)
     b = Body(f)
     sws = od.enum_switches(F, b, "layout21raw::geom::Shape")
     if not sws:
@@ -278,6 +280,9 @@ def rule_closure(ctx, rid):
             for tt in gc.find_terms(args[1], lambda x: x[0] == "call" and x[1] and re.search(r"::index$", x[1]) and len(x[2]) > 1 and x[2][1][0] == "const" and x[2][1][2] == 0):
                 r2, ch2 = field_chain(tt[2][0])
                 if ch2 and "points" in ch2:
+                    idx0 = True
+                # `xy.push(xy[0].clone())`: element 0 of the very vector that is being extended
+                if strip_calls(tt[2][0]) == strip_calls(args[0]):
                     idx0 = True
             if idx0:
                 info.setdefault(v, set()).add("push-first")
